@@ -63,7 +63,7 @@ class Ctx:
         self.violations = []      # dicts: key, case, msg
         self._vkeys = set()
         self.n_violations = 0
-        self.t0 = time.time()
+        self.t0 = time.perf_counter()
 
     # -- reporting -------------------------------------------------------
     def violation(self, key, case, msg, **extra):
@@ -121,13 +121,25 @@ class Ctx:
                 initializer(*initargs)
             out = [fn(items[i]) for i in order]
         else:
+            from vlib import world
             mp = multiprocessing.get_context("fork")
-            with mp.Pool(n, initializer=initializer, initargs=initargs) as pool:
-                out = pool.map(fn, [items[i] for i in order], chunksize)
+            world.suspend()
+            try:
+                with mp.Pool(n, initializer=_winit, initargs=(initializer, initargs)) as pool:
+                    out = pool.map(fn, [items[i] for i in order], chunksize)
+            finally:
+                world.resume()
         res = [None] * len(items)
         for i, r in zip(order, out):
             res[i] = r
         return res
+
+
+def _winit(initializer, initargs):
+    from vlib import world
+    world.resume()
+    if initializer:
+        initializer(*initargs)
 
 
 def load_known():
@@ -164,7 +176,7 @@ def write_evidence(ctx, nviol):
         "level": ctx.level,
         "coverage": cov,
         "assumptions": ctx.assumptions,
-        "wall_s": round(time.time() - ctx.t0, 3),
+        "wall_s": round(time.perf_counter() - ctx.t0, 3),
         "violations": nviol,
     }
     os.makedirs(os.path.join(VERIF, "evidence"), exist_ok=True)
@@ -282,7 +294,7 @@ def main():
     summ = {k: (len(v) if isinstance(v, (set, frozenset)) else v) for k, v in ctx.cov.items()
             if isinstance(v, (int, float, bool, set, frozenset))}
     print("%s %s seed=%d wall=%.1fs violations=%d known=%d %s"
-          % (prop, ctx.tier, seed, time.time() - ctx.t0, len(new), len(old),
+          % (prop, ctx.tier, seed, time.perf_counter() - ctx.t0, len(new), len(old),
              json.dumps(summ, sort_keys=True)))
     return rc
 
